@@ -245,6 +245,20 @@ func VerifRelayActive(sm *ServerManager) (goroutines, pushAdds int) {
 // VerifRelayForget drops the accounting of a server (world closed).
 func VerifRelayForget(sm *ServerManager) { verifRelay.Delete(IGroupObserver(sm)) }
 
+// VerifSdp: the description the stream's group currently holds for RTSP subscribers (nil if none).
+func VerifSdp(sm *ServerManager, stream string) []byte {
+	sm.mutex.Lock()
+	defer sm.mutex.Unlock()
+	if g := sm.getGroup("", stream); g != nil {
+		g.mutex.Lock()
+		defer g.mutex.Unlock()
+		if g.sdpCtx != nil {
+			return append([]byte{}, g.sdpCtx.RawSdp...)
+		}
+	}
+	return nil
+}
+
 // VerifPsCount: number of groups that hold a GB28181 publisher.
 func VerifPsCount(sm *ServerManager) int {
 	sm.mutex.Lock()
